@@ -138,6 +138,55 @@ theorem across_lines_internal : ∀ v w : Ver, (v = .v14 ∨ v = .v15) → Ver.v
       (((Gen.internalChains w).lookup e.1).join.map (·.layers) = ((Gen.internalChains v).lookup e.1).join.map (·.layers) ∨
        ((Gen.internalChains w).lookup e.1).join.map (·.layers) = some [.wrap .missingNC]) := by decide
 
+/-- Forget who is asleep: the registry with every node's `sleeping` flag cleared. -/
+def forgetSleeping (nodes : PDict Int Node) : PDict Int Node := nodes.map fun e => (e.1, { e.2 with sleeping := false })
+
+theorem forgetSleeping_set (d : PDict Int Node) (k : Int) (a b : Node)
+    (h : ({ a with sleeping := false } : Node) = { b with sleeping := false }) :
+    forgetSleeping (d.set k a) = forgetSleeping (d.set k b) := by
+  induction d with
+  | nil => simp [forgetSleeping, PDict.set, h]
+  | cons e rest ih =>
+    obtain ⟨k', v'⟩ := e
+    simp only [PDict.set]
+    by_cases hk : k' = k
+    · simp [hk, forgetSleeping, h]
+    · simp only [hk, if_false]
+      simp only [forgetSleeping, List.map_cons] at ih ⊢
+      rw [ih]
+
+theorem flush_nothing_held (m : Msg) (w : W) (h : ∀ e ∈ w.st.sbuf, e.2.node ≠ m.node) : flush m w = (.ok m, w) := by
+  have hf : (w.st.sbuf.filter fun e => e.2.node == m.node) = [] := by
+    rw [List.filter_eq_nil_iff]
+    intro e he
+    simpa using h e he
+  simp [flush, M.bind, M.getSt, hf, flushList, M.seq, M.pure]
+
+theorem heartbeat_clauses_agree : clause Gen.excHeartbeat20 0 = clause Gen.excHeartbeat22 0 := by decide
+
+/-- **The exception is only the stated one.** On a heartbeat response from a node for which nothing
+is held, 2.0/2.1 and 2.2 give the same outcome (the message, `MissingNodeError` for an unknown node —
+checked before the payload is looked at — or `InvalidMessageError`), attempt no write, leave both
+buffers alone and store the same heartbeat: the registries differ in the `sleeping` flag only. -/
+theorem heartbeat_differs_in_sleeping_only (m : Msg) (w : W) (h : ∀ e ∈ w.st.sbuf, e.2.node ≠ m.node) :
+    (hHeartbeat20 m w).1 = (hHeartbeat22 m w).1 ∧
+    (hHeartbeat20 m w).2.writes = (hHeartbeat22 m w).2.writes ∧ (hHeartbeat20 m w).2.faults = (hHeartbeat22 m w).2.faults ∧
+    (hHeartbeat20 m w).2.st.sbuf = (hHeartbeat22 m w).2.st.sbuf ∧ (hHeartbeat20 m w).2.st.ibuf = (hHeartbeat22 m w).2.st.ibuf ∧
+    (hHeartbeat20 m w).2.st.pv = (hHeartbeat22 m w).2.st.pv ∧ (hHeartbeat20 m w).2.st.proto = (hHeartbeat22 m w).2.st.proto ∧
+    forgetSleeping (hHeartbeat20 m w).2.st.nodes = forgetSleeping (hHeartbeat22 m w).2.st.nodes := by
+  simp only [hHeartbeat20, hHeartbeat22, requireNode, M.bind, M.getSt, heartbeatValue, convertExn, heartbeat_clauses_agree]
+  cases hn : w.st.nodes.get? m.node with
+  | none => simp [M.raise]
+  | some node =>
+    simp only [M.pure]
+    cases hp : pyInt? m.payload with
+    | none => by_cases hc : pyCaught .ValueError (clause Gen.excHeartbeat22 0) = true <;> simp [hc, M.raise]
+    | some hb =>
+      simp only [M.seq, M.bind, setNode, M.modifySt, M.pure]
+      rw [flush_nothing_held m _ (by simpa using h)]
+      refine ⟨rfl, rfl, rfl, rfl, rfl, rfl, rfl, ?_⟩
+      exact forgetSleeping_set _ _ _ _ rfl
+
 /-! ### Whole histories -/
 
 /-- A history stays within the older protocol `v`: every received line that decodes carries a type
